@@ -62,6 +62,7 @@ fn main() {
                 }
                 let steps = prof.steps;
                 let stab = prof.stabilize_rounds;
+                let lease_rounds = prof.lease_rounds;
                 let (mut sched, mut cl) = Sched::new(prof, seed);
                 reset_line(&mut w, k + 1, &pname, seed, &cl.cfg);
                 let mut evs = cl.init_all();
@@ -85,7 +86,21 @@ fn main() {
                     }
                     sched.refresh_timeouts(&mut cl);
                 }
-                if stab > 0 {
+                if lease_rounds > 0 {
+                    sched.stabilize(&mut cl, &mut evs, stab);
+                    write_events(&mut w, &evs, k + 1);
+                    // drop whatever is still in flight, then check the premises of the scenario
+                    cl.net.clear();
+                    if let Some((l, members, t)) = sched.lease_premise(&cl) {
+                        let v = json!({"ev": "LeaseStart", "run": k + 1, "n": 0, "seq": 0,
+                                       "a": {"leader": l, "members": members, "term": t}});
+                        writeln!(w, "{}", v).unwrap();
+                        let mut evs2 = vec![];
+                        sched.lease(&mut cl, &mut evs2, l, &members, lease_rounds);
+                        total += evs2.len();
+                        write_events(&mut w, &evs2, k + 1);
+                    }
+                } else if stab > 0 {
                     let probe = sched.stabilize(&mut cl, &mut evs, stab);
                     let v = json!({"ev": "StableEnd", "run": k + 1, "n": 0, "seq": 0, "a": {"probe": probe}});
                     write_events(&mut w, &evs, k + 1);
